@@ -447,6 +447,18 @@ func runMCPApply(res *Result, env *mcpEnv, variant string, add func(rule, loc, f
 	case "upsert_foreign_route":
 		// management upsert naming a route that does not exist: refused, nothing written
 		wantWrite = false
+	case "foreign_symlink_path", "foreign_hardlink_path":
+		// another name for the very same file: still not the configured path
+		other := filepath.Join(env.dir, "alias-of-Hookaidofile")
+		_ = os.Remove(other)
+		if variant == "foreign_symlink_path" {
+			_ = os.Symlink(env.cfgPath, other)
+		} else {
+			_ = os.Link(env.cfgPath, other)
+		}
+		defer os.Remove(other)
+		args["path"] = other
+		wantWrite = false
 	case "reload_unverifiable":
 		// write_and_reload with content that compiles but whose admin token cannot
 		// be loaded by this process: the reload cannot be verified (the health
@@ -480,9 +492,19 @@ func runMCPApply(res *Result, env *mcpEnv, variant string, add func(rule, loc, f
 			add("C20.confinement", loc, "config-writing tool touched %s, outside the directory of the configured config path", pth)
 		}
 	}
+	if variant == "foreign_symlink_path" {
+		if fi, err := os.Lstat(filepath.Join(env.dir, "alias-of-Hookaidofile")); err != nil || fi.Mode()&os.ModeSymlink == 0 {
+			add("C20.confinement", loc, "config_apply with a symlink to the config file as path replaced the symlink (err=%v)", err)
+		}
+	}
+	if variant == "foreign_hardlink_path" {
+		if b, err := os.ReadFile(filepath.Join(env.dir, "alias-of-Hookaidofile")); err != nil || !bytes.Equal(b, env.cfgText) {
+			add("C20.confinement", loc, "config_apply with a hard link of the config file as path wrote through the other name")
+		}
+	}
 	ents, _ := os.ReadDir(env.dir)
 	for _, en := range ents {
-		if en.Name() != "Hookaidofile" && !strings.HasPrefix(en.Name(), "q.db") {
+		if en.Name() != "Hookaidofile" && en.Name() != "alias-of-Hookaidofile" && !strings.HasPrefix(en.Name(), "q.db") {
 			add("C20.confinement.stray", loc, "config-writing tool left %s behind", en.Name())
 		}
 	}
@@ -529,7 +551,7 @@ func EnumMCPCases() []*Program {
 			}
 		}
 	}
-	for _, v := range []string{"valid", "preview", "invalid_parse", "invalid_compile", "foreign_path", "foreign_path_traversal", "unknown_key", "unknown_mode", "upsert_foreign_route", "reload_unverifiable"} {
+	for _, v := range []string{"valid", "preview", "invalid_parse", "invalid_compile", "foreign_path", "foreign_path_traversal", "unknown_key", "unknown_mode", "upsert_foreign_route", "reload_unverifiable", "foreign_symlink_path", "foreign_hardlink_path"} {
 		out = append(out, &Program{World: "mcp", Steps: []Step{{Op: "mcpapply", Reason: v}}})
 	}
 	return out
@@ -541,7 +563,7 @@ func init() {
 		Run: RunMCPProgram, Enum: EnumMCPCases,
 		Level:      "other",
 		NonTrivial: func(p *Program, r *Result) bool { return r.Ops >= 1 },
-		Rule:       "complete enumeration of the MCP gate table: 31 known + 4 unknown + 8 white-space-padded tool names x role {read, operate, admin} x --enable-mutations x --enable-runtime-control x principal {absent, present, blank} (36 server configurations x 43 names; a padded name is either refused as unknown without effect or held to the gate and audit duties of the tool it resembles; plus the foreign-actor variant of every allowed mutating tool) against the reference gate written from internal/mcp/spec.md; tools/list = allowed set; refused => queue listing and config directory unchanged; exactly one audit record with all seven fields per mutating call; plus 10 config_apply / management variants (valid write, preview, parse/compile-invalid content, foreign and traversing paths, unknown keys/modes, write_and_reload whose reload cannot be verified: previous file back) over simfs with every touched path logged; distinct = (server configuration) and (apply variant) cases",
+		Rule:       "complete enumeration of the MCP gate table: 31 known + 4 unknown + 8 white-space-padded tool names x role {read, operate, admin} x --enable-mutations x --enable-runtime-control x principal {absent, present, blank} (36 server configurations x 43 names; a padded name is either refused as unknown without effect or held to the gate and audit duties of the tool it resembles; plus the foreign-actor variant of every allowed mutating tool) against the reference gate written from internal/mcp/spec.md; tools/list = allowed set; refused => queue listing and config directory unchanged; exactly one audit record with all seven fields per mutating call; plus 12 config_apply / management variants (valid write, preview, parse/compile-invalid content, foreign and traversing paths, a symlink to and a hard link of the config file as path, unknown keys/modes, write_and_reload whose reload cannot be verified: previous file back) over simfs with every touched path logged; distinct = (server configuration) and (apply variant) cases",
 		RealStub: map[string]string{
 			"mcp.Server (Serve loop, framing, callTool, gating, audit, config_apply, management tools, SQLite-mode queue tools)": "real, over in-memory pipes",
 			"MCP admin-proxy mode, write_and_reload, runtime-control beyond the gate":                                            "not exercised (private http.Transport with a real dialer / real processes); allowed runtime-control tools fail their set-up check (no --pid-file) after the gate, so no process is started",
